@@ -1,6 +1,8 @@
 package e2
 
 import (
+	"fmt"
+
 	"go.etcd.io/etcd/raft/v3/raftpb"
 )
 
@@ -38,6 +40,23 @@ import (
 //	   asks for the same term and V grants again -> two leaders in one term
 //	3  reconnect V with both leaders, let clients write through both
 //	4  heal
+//
+// vote-then-torn-crash (a node that forgets its synced term/vote/commit when its
+// WAL tail is torn):
+//
+//	0  wait for a leader B and a few acknowledged commands (client values are
+//	   large in this plan, so that a WAL record spans several sectors)
+//	1  isolate B; the two followers elect a leader A of term T (the other one,
+//	   V, has granted and synced its vote for A in T)
+//	2  clients write through A; when the first MsgApp carrying a command
+//	   reaches V, kill V at the before-sync seam of that Ready and lose only
+//	   the LAST unsynced sector: the record is torn, the restart must repair
+//	   the WAL; cut V off from A
+//	3  restart V from that image and reconnect it with B, the deposed leader
+//	   of the older term: a V that still knows term T makes B step down; a V
+//	   that has forgotten its hard state follows B again, and B commits and
+//	   acknowledges writes in the old term at indexes A has already used
+//	4  heal
 type directed struct {
 	kind     string
 	phase    int
@@ -53,6 +72,7 @@ type directed struct {
 	killL    bool
 	allowed  map[int]bool // nil = no restriction; empty = nobody
 	winner   int
+	termA    uint64
 }
 
 func (s *Sim) initDirected() {
@@ -122,7 +142,10 @@ func hasCommand(ents []raftpb.Entry) bool {
 // dirOnDeliver is called right before a message is handed to its destination.
 func (s *Sim) dirOnDeliver(m raftpb.Message, dst *nodeState) {
 	d := s.dir
-	if d == nil || d.armed || d.phase != 1 {
+	if d == nil || d.armed {
+		return
+	}
+	if armPhase := map[string]int{"ack-then-crash": 1, "vote-then-crash": 1, "vote-then-torn-crash": 2}[d.kind]; d.phase != armPhase {
 		return
 	}
 	switch d.kind {
@@ -135,15 +158,30 @@ func (s *Sim) dirOnDeliver(m raftpb.Message, dst *nodeState) {
 			return
 		}
 		d.winner = int(m.From)
+	case "vote-then-torn-crash":
+		if d.A == 0 || int(m.To) != d.V || int(m.From) != d.A || m.Type != raftpb.MsgApp || !hasCommand(m.Entries) {
+			return
+		}
+		size := 0
+		for _, e := range m.Entries {
+			size += len(e.Data)
+		}
+		if size < 2*sector {
+			return // too small to be torn across sectors: wait for a larger one
+		}
 	default:
 		return
 	}
+	lose := d.lose
+	if d.kind == "vote-then-torn-crash" {
+		lose = "torn"
+	}
 	s.mu.Lock()
-	dst.inc.arm = &crashArm{kind: seamBeforeSync, countdown: 1, lose: d.lose}
+	dst.inc.arm = &crashArm{kind: seamBeforeSync, countdown: 1, lose: lose}
 	s.mu.Unlock()
 	d.armed = true
 	s.fault("crash-armed")
-	s.fault("directed-crash-armed-on-" + map[string]string{"ack-then-crash": "append", "vote-then-crash": "vote"}[d.kind])
+	s.fault("directed-crash-armed-on-" + map[string]string{"ack-then-crash": "append", "vote-then-crash": "vote", "vote-then-torn-crash": "append-after-vote"}[d.kind])
 	s.trace("directed: arm crash of n%d at before-sync of the Ready handling %s", dst.id, msgString(m))
 }
 
@@ -171,6 +209,9 @@ func (s *Sim) dirStep() bool {
 	}
 	if d.kind == "vote-then-crash" {
 		return s.dirStepVote()
+	}
+	if d.kind == "vote-then-torn-crash" {
+		return s.dirStepTorn()
 	}
 	switch d.phase {
 	case 0:
@@ -331,6 +372,101 @@ func (s *Sim) dirStepVote() bool {
 			return false
 		}
 		d.phase = 9
+		s.heal()
+		s.probe("directed-plan-completed")
+		return true
+	}
+	return false
+}
+
+func (s *Sim) dirStepTorn() bool {
+	d := s.dir
+	switch d.phase {
+	case 0:
+		l := s.leaderID()
+		if l == 0 || s.res.Acked < d.warm || s.liveCount() < len(s.nodes) {
+			if s.step > 1200 {
+				s.dirAbort("no-stable-leader")
+			}
+			return false
+		}
+		for _, ns := range s.nodes {
+			if !ns.view.ok || ns.view.lead != uint64(l) || ns.view.applied != s.nodes[l-1].view.applied {
+				return false
+			}
+		}
+		d.B = l
+		s.isolate(d.B)
+		s.partitioned, s.partHoldTill = true, 1<<30
+		d.allowed = map[int]bool{}
+		d.phase, d.start = 1, s.step
+		s.res.FaultsAny = true
+		s.fault("directed-vote-then-torn-crash")
+		s.fault("leader-isolated")
+		s.journal(s.deathSig(), "directed vote-then-torn-crash: isolate leader n%d", d.B)
+		s.trace("directed vote-then-torn-crash: isolate B=n%d (term %d)", d.B, s.nodes[d.B-1].view.term)
+		return true
+	case 1:
+		// the two followers elect a leader among themselves
+		for _, ns := range s.nodes {
+			if ns.id != d.B && ns.view.ok && ns.view.state == 2 && ns.view.term > s.nodes[d.B-1].view.term {
+				d.A, d.termA = ns.id, ns.view.term
+			}
+		}
+		if d.A == 0 {
+			if s.step > d.start+700 {
+				s.dirAbort("no-new-leader")
+			}
+			return false
+		}
+		for _, ns := range s.nodes {
+			if ns.id != d.B && ns.id != d.A {
+				d.V = ns.id
+			}
+		}
+		if v := s.nodes[d.V-1]; !v.view.ok || v.view.lead != uint64(d.A) {
+			return false // the voter has not heard from the new leader yet
+		}
+		d.allowed = map[int]bool{d.A: true}
+		d.phase, d.start = 2, s.step
+		s.trace("directed: A=n%d leads term %d with the vote of V=n%d", d.A, d.termA, d.V)
+		return false
+	case 2:
+		v := s.nodes[d.V-1]
+		if v.down {
+			// V must not re-learn the term from A
+			s.block2(d.A, d.V)
+			if v.image.tornInWal {
+				s.fault("directed-voter-killed-with-torn-wal-record")
+			} else {
+				s.probe("directed-crash-left-no-torn-record")
+			}
+			s.journal(fmt.Sprintf("%s/restart-failed/%s", s.prop, s.imageClass(v)), "directed: restart voter n%d, reconnect it with deposed leader n%d", d.V, d.B)
+			s.restart(v)
+			s.unblock2(d.B, d.V)
+			d.allowed = map[int]bool{d.B: true, d.V: true}
+			d.phase, d.ackedAt, d.deadline = 3, s.res.Acked, s.step+700
+			s.trace("directed: V=n%d restarted, reconnected with B=n%d", d.V, d.B)
+			return true
+		}
+		if s.leaderID() == 0 || s.step > d.start+600 {
+			s.dirAbort("no-append-with-command")
+		}
+		return false
+	case 3:
+		v, b := s.nodes[d.V-1], s.nodes[d.B-1]
+		if v.view.ok && b.view.ok && v.view.lead == uint64(d.B) && v.view.term < d.termA && d.winner == 0 {
+			d.winner = d.B
+			s.probe("directed-deposed-leader-followed-again")
+		}
+		if s.res.Acked < d.ackedAt+2 && s.step < d.deadline {
+			return false
+		}
+		if s.res.Acked >= d.ackedAt+2 {
+			s.probe("directed-new-quorum-served")
+		}
+		d.phase = 9
+		d.allowed = nil
 		s.heal()
 		s.probe("directed-plan-completed")
 		return true
